@@ -7,9 +7,9 @@
 //!             `Fragment::from_bytes` + `scope::set_project` + `restore` of the fragment captured by A(i).
 //! then in both: `analyze_post_pass1`, dumps, pass2 for every file but F, `analyze_post_pass2`, dumps,
 //! emit every file but F.
-//! Refuting events: any dump / diagnostic record / emitted SV differs between B(i→j) and A(j); `restore`
-//! returns Err for a fragment `capture` accepted although parsing F at j works; a panic that A(j) does
-//! not have.  A capture that refuses (Err) is counted, never a violation.
+//! Refuting events: any dump / diagnostic record / emitted SV differs between B(i→j) and A(j); a panic
+//! that A(j) does not have.  A capture that refuses (Err) is counted, never a violation; a `restore`
+//! that returns Err is counted too (the CLI then drops the file and parses it), not compared.
 
 use crate::fsgen::{self, FileSet, FileSrc};
 use std::collections::{BTreeMap, BTreeSet};
@@ -28,6 +28,10 @@ use veryl_parser::resource_table::{self, PathId, StrId};
 
 const PRJ: &str = "prj";
 
+/// signatures already minimised + reported by this process (Run de-duplicates too; this only
+/// saves the minimisation work)
+static REPORTED: std::sync::Mutex<BTreeSet<String>> = std::sync::Mutex::new(BTreeSet::new());
+
 #[derive(Clone)]
 pub enum FMode {
     /// parse F (and capture its fragment like the CLI does)
@@ -45,6 +49,8 @@ pub struct RunOut {
     pub sv: Vec<(String, String)>,
     /// Parse mode: Ok(bytes) / Err(refusal reason); None when F's pass1 had diagnostics (not cacheable)
     pub capture: Option<Result<Vec<u8>, String>>,
+    /// per file position: the capture of every parsed file (None: restored, or pass1 diagnostics)
+    pub captures: Vec<Option<Result<Vec<u8>, String>>>,
     /// Restore mode: result of from_bytes + restore
     pub restore: Option<Result<(), String>>,
     pub parse_error: Option<String>,
@@ -206,13 +212,40 @@ fn canon_debug(s: &str) -> String {
 thread_local!(static FIRST_USER_SYMBOL: std::cell::Cell<usize> = const { std::cell::Cell::new(0) });
 
 /// Every symbol created after `Analyzer::new` (builtins are identical in both runs by construction).
+/// `Token::default()` (used by `TokenRange::default()` for "no token") is
+/// `Token::generate(StrId(0), PathId(0))`: its text and path are whatever was interned first, i.e.
+/// they denote nothing.  The codec stores them as real references, so a restored default token
+/// names the first path interned *at capture time*.  Nothing can tell such a token from another
+/// (its id is fresh), so the path of a zero-position generated token whose text is string 0 is
+/// masked here.  (Loosens only this harness-side dump; recorded in notes/C06.md.)
+fn mask_default_tokens(s: &str) -> String {
+    let zero = format!("{:?}", resource_table::get_str_value(StrId(0)).unwrap_or_default());
+    let pat = format!("text: {zero}, line: 0, column: 0, length: 0, pos: 0, source: Generated(P\"");
+    let mut out = String::with_capacity(s.len());
+    let mut rest = s;
+    while let Some(k) = rest.find(&pat) {
+        out.push_str(&rest[..k + pat.len() - 2]);
+        out.push_str("<default>");
+        let after = &rest[k + pat.len()..];
+        match after.find("\")") {
+            Some(e) => rest = &after[e + 1..],
+            None => {
+                rest = after;
+                break;
+            }
+        }
+    }
+    out.push_str(rest);
+    out
+}
+
 fn symbols_full_dump() -> String {
     let first = FIRST_USER_SYMBOL.with(|x| x.get());
     let mut all: Vec<_> = symbol_table::get_all().into_iter().filter(|s| s.id.0 > first).collect();
     all.sort_by_key(|s| s.id);
     let mut out = String::new();
     for s in &all {
-        out.push_str(&format!("{} {}: {}\n", s.id.0, kind_name(&s.kind), canon_debug(&norm_debug(&format!("{s:?}")))));
+        out.push_str(&format!("{} {}: {}\n", s.id.0, kind_name(&s.kind), canon_debug(&mask_default_tokens(&norm_debug(&format!("{s:?}"))))));
     }
     out
 }
@@ -223,7 +256,7 @@ fn sorted_lines(s: &str) -> String {
     v.join("\n")
 }
 
-fn take_dumps(stage: &'static str, full: bool, f_path: PathId, out: &mut Vec<(&'static str, String)>) {
+fn take_dumps(stage: &'static str, full: bool, paths: &[PathId], out: &mut Vec<(&'static str, String)>) {
     let name = |n: &'static str, post: &'static str| -> &'static str { if stage == "post1" { n } else { post } };
     out.push((name("symbol_table", "final:symbol_table"), symbol_table::dump()));
     out.push((name("scope_tokens", "final:scope_tokens"), scope::dump_tokens()));
@@ -235,7 +268,7 @@ fn take_dumps(stage: &'static str, full: bool, f_path: PathId, out: &mut Vec<(&'
         if stage == "post1" {
             out.push(("attributes", sorted_lines(&attribute_table::dump())));
             out.push(("unsafes", sorted_lines(&unsafe_table::dump())));
-            let docs: Vec<String> = veryl_parser::doc_comment_table::export_by_path(f_path).iter().map(|(l, t)| format!("{l}: {t}")).collect();
+            let docs: Vec<String> = paths.iter().flat_map(|p| veryl_parser::doc_comment_table::export_by_path(*p).into_iter().map(move |(l, t)| format!("{p}:{l}: {t}"))).collect();
             out.push(("doc_comments", docs.join("\n")));
             let mut deps: Vec<String> = type_dag::dependent_files()
                 .iter()
@@ -251,8 +284,21 @@ fn take_dumps(stage: &'static str, full: bool, f_path: PathId, out: &mut Vec<(&'
     }
 }
 
-/// One run on the *current* thread (which must be fresh).
+/// One run on the *current* thread (which must be fresh).  `f_pos` is handled per `mode`; every
+/// other file is parsed.  pass2 and emit are skipped for `f_pos`.
 pub fn run(files: &[FileSrc], f_pos: usize, mode: &FMode, full: bool) -> RunOut {
+    let modes: Vec<FMode> = (0..files.len()).map(|k| if k == f_pos { mode.clone() } else { FMode::Parse }).collect();
+    let skip: Vec<bool> = (0..files.len()).map(|k| k == f_pos).collect();
+    let mut out = run_multi(files, &modes, &skip, full);
+    if f_pos < files.len() && out.captures.len() > f_pos {
+        out.capture = out.captures[f_pos].clone();
+    }
+    out
+}
+
+/// General form: file k is parsed (and captured like the CLI does for every miss) or restored per
+/// `modes[k]`; pass2 and emit are skipped for files with `skip[k]` (always for restored ones).
+pub fn run_multi(files: &[FileSrc], modes: &[FMode], skip: &[bool], full: bool) -> RunOut {
     let mut out = RunOut::default();
     let metadata = default_metadata();
     let analyzer = Analyzer::new(&metadata);
@@ -261,49 +307,29 @@ pub fn run(files: &[FileSrc], f_pos: usize, mode: &FMode, full: bool) -> RunOut 
     let mut parsers: Vec<Option<Parser>> = vec![];
     let symbol_before = veryl_analyzer::symbol::peek_symbol_id();
     FIRST_USER_SYMBOL.with(|x| x.set(symbol_before));
-    let mut f_window = (symbol_before, symbol_before);
+    let mut windows: Vec<(usize, usize)> = vec![];
     for (k, f) in files.iter().enumerate() {
-        if k == f_pos {
-            let s0 = veryl_analyzer::symbol::peek_symbol_id();
-            if let FMode::Restore(bytes) = mode {
-                let r = match Fragment::from_bytes(bytes) {
-                    Err(e) => Err(format!("from_bytes: {e}")),
-                    Ok(frag) => {
-                        // what analyze_pass1 would otherwise register for the project (incremental.rs)
-                        scope::set_project(prj, true);
-                        fragment_cache::restore(&frag, prj).map_err(|e| e.to_string())
-                    }
-                };
-                let failed = r.is_err();
-                out.restore = Some(r);
-                if failed {
-                    return out;
-                }
-                f_window = (s0, veryl_analyzer::symbol::peek_symbol_id());
-                parsers.push(None);
-                continue;
-            }
-            let wm = fragment_cache::watermark();
-            let parser = match Parser::parse(&f.text, &Path::new(&f.name)) {
-                Ok(p) => p,
-                Err(e) => {
-                    out.parse_error = Some(format!("{}: {e}", f.name));
-                    return out;
+        let s0 = veryl_analyzer::symbol::peek_symbol_id();
+        if let FMode::Restore(bytes) = &modes[k] {
+            let r = match Fragment::from_bytes(bytes) {
+                Err(e) => Err(format!("from_bytes: {e}")),
+                Ok(frag) => {
+                    // what analyze_pass1 would otherwise register for the project (incremental.rs)
+                    scope::set_project(prj, true);
+                    fragment_cache::restore(&frag, prj).map_err(|e| e.to_string())
                 }
             };
-            let errs = analyzer.analyze_pass1(PRJ, &parser.veryl);
-            out.f_pass1_diags = errs.len();
-            if errs.is_empty() {
-                out.capture = Some(match fragment_cache::capture(Path::new(&f.name), &f.text, &wm) {
-                    Ok(frag) => frag.to_bytes().map_err(|e| e.to_string()),
-                    Err(e) => Err(e.to_string()),
-                });
+            let failed = r.is_err();
+            out.restore = Some(r);
+            if failed {
+                return out;
             }
-            errors.extend(errs);
-            f_window = (s0, veryl_analyzer::symbol::peek_symbol_id());
-            parsers.push(Some(parser));
+            windows.push((s0, veryl_analyzer::symbol::peek_symbol_id()));
+            out.captures.push(None);
+            parsers.push(None);
             continue;
         }
+        let wm = fragment_cache::watermark();
         let parser = match Parser::parse(&f.text, &Path::new(&f.name)) {
             Ok(p) => p,
             Err(e) => {
@@ -311,15 +337,29 @@ pub fn run(files: &[FileSrc], f_pos: usize, mode: &FMode, full: bool) -> RunOut 
                 return out;
             }
         };
-        errors.append(&mut analyzer.analyze_pass1(PRJ, &parser.veryl));
+        let errs = analyzer.analyze_pass1(PRJ, &parser.veryl);
+        if skip[k] {
+            out.f_pass1_diags += errs.len();
+        }
+        // incremental.rs: `capture(path, input, watermark, cacheable = errors.is_empty())`
+        out.captures.push(if errs.is_empty() {
+            Some(match fragment_cache::capture(Path::new(&f.name), &f.text, &wm) {
+                Ok(frag) => frag.to_bytes().map_err(|e| e.to_string()),
+                Err(e) => Err(e.to_string()),
+            })
+        } else {
+            None
+        });
+        errors.extend(errs);
+        windows.push((s0, veryl_analyzer::symbol::peek_symbol_id()));
         parsers.push(Some(parser));
     }
     errors.append(&mut Analyzer::analyze_post_pass1());
 
-    let f_path = resource_table::insert_path(Path::new(files.get(f_pos).map(|f| f.name.as_str()).unwrap_or("<none>")));
-    take_dumps("post1", full, f_path, &mut out.dumps);
+    let paths: Vec<PathId> = files.iter().map(|f| resource_table::insert_path(Path::new(&f.name))).collect();
+    take_dumps("post1", full, &paths, &mut out.dumps);
     for s in symbol_table::get_all() {
-        if s.id.0 > f_window.0 && s.id.0 <= f_window.1 {
+        if windows.iter().zip(skip).any(|(w, sk)| *sk && s.id.0 > w.0 && s.id.0 <= w.1) {
             out.f_kinds.insert(kind_name(&s.kind));
             out.f_symbols += 1;
         }
@@ -328,7 +368,7 @@ pub fn run(files: &[FileSrc], f_pos: usize, mode: &FMode, full: bool) -> RunOut 
     let mut context = Context::default();
     let mut ir = veryl_analyzer::ir::Ir::default();
     for (k, p) in parsers.iter().enumerate() {
-        if k == f_pos {
+        if skip[k] {
             continue; // the CLI skips pass2 for restored files; run A does the same to stay comparable
         }
         if let Some(p) = p {
@@ -337,14 +377,17 @@ pub fn run(files: &[FileSrc], f_pos: usize, mode: &FMode, full: bool) -> RunOut 
         }
     }
     errors.append(&mut Analyzer::analyze_post_pass2(&ir));
-    take_dumps("final", full, f_path, &mut out.dumps);
+    take_dumps("final", full, &paths, &mut out.dumps);
+    if full {
+        out.dumps.push(("ir", ir.to_string()));
+    }
 
     out.has_error = errors.iter().any(|e| e.is_error());
     out.diags = errors.iter().map(diag_rec).collect();
     out.diags.sort();
 
     for (k, p) in parsers.iter().enumerate() {
-        if k == f_pos {
+        if skip[k] {
             continue;
         }
         if let Some(p) = p {
@@ -419,16 +462,14 @@ fn window(a: &str, b: &str) -> String {
     if lo <= 60 { trunc(a, hi) } else { format!("{head} … {}{}", &a[lo..hi], if hi < a.len() { "…" } else { "" }) }
 }
 
-/// which symbol kind / table a differing dump line is about
-fn line_class(dump: &str, parsed: &str, restored: &str) -> String {
-    let l = if parsed != "<end of dump>" { parsed } else { restored };
+/// which symbol kind / table a dump line is about
+fn line_class(dump: &str, line: &str) -> String {
+    let l = line;
+    let kind_text = |t: &str| -> String { t.split(['(', ',']).next().unwrap_or("").trim().to_string() };
     match dump.trim_start_matches("final:") {
-        "symbol_table" | "type_dag" => l.rsplit("}: ").next().filter(|_| l.contains("}: ")).or_else(|| l.rsplit(" : ").next()).map(|k| k.split([' ', '(', ',']).next().unwrap_or("").to_string()).unwrap_or_default(),
-        "symbols_full" => {
-            // the first differing *field* is more telling than the kind alone
-            let kind = l.split_whitespace().nth(1).unwrap_or("").trim_end_matches(':').to_string();
-            kind
-        }
+        "symbol_table" => l.split_once("}: ").map(|x| kind_text(x.1)).unwrap_or_default(),
+        "type_dag" => l.rsplit_once(" : ").map(|x| kind_text(x.1)).unwrap_or_default(),
+        "symbols_full" => l.split_whitespace().nth(1).unwrap_or("").trim_end_matches(':').to_string(),
         "owned_scopes" => l.split(" : ").nth(1).unwrap_or("").to_string(),
         "scope_tokens" => "NamespaceTable".to_string(),
         "type_dag_file" | "dependent_files" => "file_dag".to_string(),
@@ -436,17 +477,38 @@ fn line_class(dump: &str, parsed: &str, restored: &str) -> String {
     }
 }
 
-/// Compare B (F restored at j) with A (F parsed at j).
+fn squeeze(l: &str) -> String {
+    l.split_whitespace().collect::<Vec<_>>().join(" ")
+}
+
+/// Compare B (F restored at j) with A (F parsed at j).  At most one `Diff`: the signature names
+/// the first differing observation in a fixed order (dumps after post-pass1, dumps after
+/// post-pass2, IR, diagnostics, SV) and, for a dump, the kind of the first line that exists on one
+/// side only (column alignment squeezed; a line only in the restored run is preferred) — so one
+/// root cause maps to one signature even when an extra symbol shifts every later id.
 pub fn compare(a: &RunOut, b: &RunOut) -> Vec<Diff> {
-    let mut diffs = vec![];
+    let mut sig: Option<String> = None;
+    let mut parts: Vec<String> = vec![];
     for ((name, da), (_, db)) in a.dumps.iter().zip(b.dumps.iter()) {
         if da != db {
             let (n, la, lb) = first_diff_line(da, db);
-            let class = line_class(name, &la, &lb);
-            diffs.push(Diff {
-                signature: format!("dump:{name}:{class}"),
-                what: format!("{name} differs at line {n}: parsed {:?} / restored {:?}", window(&la, &lb), window(&lb, &la)),
-            });
+            if sig.is_none() {
+                let sa: BTreeSet<String> = da.lines().map(squeeze).collect();
+                let sb: BTreeSet<String> = db.lines().map(squeeze).collect();
+                let only_b = db.lines().find(|l| !sa.contains(&squeeze(l)));
+                let only_a = da.lines().find(|l| !sb.contains(&squeeze(l)));
+                let class = line_class(name, only_b.or(only_a).unwrap_or(&la));
+                sig = Some(format!("dump:{name}:{class}"));
+                parts.push(format!(
+                    "{name} differs; first line only in the restored run: {:?}; first line only in the parsed run: {:?}; first differing line {n}: parsed {:?} / restored {:?}",
+                    only_b.map(|l| trunc(&squeeze(l), 300)),
+                    only_a.map(|l| trunc(&squeeze(l), 300)),
+                    window(&la, &lb),
+                    window(&lb, &la)
+                ));
+            } else {
+                parts.push(format!("{name} differs at line {n}"));
+            }
         }
     }
     if a.diags != b.diags {
@@ -455,26 +517,25 @@ pub fn compare(a: &RunOut, b: &RunOut) -> Vec<Diff> {
         let only_a: Vec<&&DiagRec> = sa.difference(&sb).collect();
         let only_b: Vec<&&DiagRec> = sb.difference(&sa).collect();
         let code = only_b.first().or(only_a.first()).map(|d| d.code.clone()).unwrap_or_else(|| "multiplicity".into());
-        diffs.push(Diff {
-            signature: format!("diag:{code}"),
-            what: format!(
-                "diagnostics differ: only when F is parsed: {:?}; only when F is restored: {:?}",
-                only_a.iter().take(3).map(|d| format!("{} {}", d.code, trunc(&d.message, 120))).collect::<Vec<_>>(),
-                only_b.iter().take(3).map(|d| format!("{} {}", d.code, trunc(&d.message, 120))).collect::<Vec<_>>()
-            ),
-        });
+        sig.get_or_insert(format!("diag:{code}"));
+        parts.push(format!(
+            "diagnostics differ: only when F is parsed: {:?}; only when F is restored: {:?}",
+            only_a.iter().take(3).map(|d| format!("{} {}", d.code, trunc(&d.message, 120))).collect::<Vec<_>>(),
+            only_b.iter().take(3).map(|d| format!("{} {}", d.code, trunc(&d.message, 120))).collect::<Vec<_>>()
+        ));
     }
     for ((name, ta), (_, tb)) in a.sv.iter().zip(b.sv.iter()) {
         if ta != tb {
             let (n, la, lb) = first_diff_line(ta, tb);
-            diffs.push(Diff {
-                signature: "sv-diff".into(),
-                what: format!("emitted SV of {name} differs at line {n}: parsed {:?} / restored {:?}", trunc(&la, 200), trunc(&lb, 200)),
-            });
+            sig.get_or_insert("sv-diff".into());
+            parts.push(format!("emitted SV of {name} differs at line {n}: parsed {:?} / restored {:?}", trunc(&la, 200), trunc(&lb, 200)));
             break;
         }
     }
-    diffs
+    match sig {
+        None => vec![],
+        Some(signature) => vec![Diff { signature, what: parts.join(" | ") }],
+    }
 }
 
 fn norm_reason(r: &str) -> String {
@@ -505,10 +566,13 @@ fn panic_sig(p: &PanicInfo) -> String {
 pub enum PairOutcome {
     Equal,
     Diffs(Vec<Diff>),
+    #[allow(dead_code)]
     CaptureRefused(String),
     NotCacheable,
     RestoreErr(String),
+    #[allow(dead_code)]
     BaselinePanic(String),
+    #[allow(dead_code)]
     Skipped(String),
 }
 
@@ -535,6 +599,47 @@ pub fn check_pair(files: &[FileSrc], f: usize, i: usize, j: usize, full: bool, p
         }
     };
     judge(&a_j, run_fresh(order_with(files, f, j), j, FMode::Restore(bytes), full), perturb)
+}
+
+/// Several files restored at once: fragments captured in a cold build with file order `cap_order`
+/// (indices into `files`), restored in a build with order `order`; `restored` = the files to restore.
+pub fn check_multi(files: &[FileSrc], order: &[usize], cap_order: &[usize], restored: &BTreeSet<usize>, full: bool, perturb: bool) -> (PairOutcome, usize) {
+    let cap_files: Vec<FileSrc> = cap_order.iter().map(|&k| files[k].clone()).collect();
+    let n = files.len();
+    let cold = {
+        let (modes, skip) = (vec![FMode::Parse; n], vec![false; n]);
+        match fresh_thread(STACK_64M, move || run_multi(&cap_files, &modes, &skip, false)) {
+            Ok(x) => x,
+            Err(p) => return (PairOutcome::BaselinePanic(format!("{}: {}", p.location, p.message)), 0),
+        }
+    };
+    if let Some(e) = cold.parse_error {
+        return (PairOutcome::Skipped(e), 0);
+    }
+    // a file without a stored fragment is a miss: parsed in the warm build
+    let mut frag: BTreeMap<usize, Arc<Vec<u8>>> = BTreeMap::new();
+    for (pos, &k) in cap_order.iter().enumerate() {
+        if restored.contains(&k)
+            && let Some(Some(Ok(b))) = cold.captures.get(pos)
+        {
+            frag.insert(k, Arc::new(b.clone()));
+        }
+    }
+    if frag.is_empty() {
+        return (PairOutcome::NotCacheable, 0);
+    }
+    let ord_files: Vec<FileSrc> = order.iter().map(|&k| files[k].clone()).collect();
+    let skip: Vec<bool> = order.iter().map(|k| frag.contains_key(k)).collect();
+    let a = {
+        let (f2, s2) = (ord_files.clone(), skip.clone());
+        match fresh_thread(STACK_64M, move || run_multi(&f2, &vec![FMode::Parse; f2.len()], &s2, full)) {
+            Ok(x) => x,
+            Err(p) => return (PairOutcome::BaselinePanic(format!("{}: {}", p.location, p.message)), 0),
+        }
+    };
+    let modes: Vec<FMode> = order.iter().map(|k| frag.get(k).map(|b| FMode::Restore(b.clone())).unwrap_or(FMode::Parse)).collect();
+    let b = fresh_thread(STACK_64M, move || run_multi(&ord_files, &modes, &skip, full));
+    (judge(&a, b, perturb), frag.len())
 }
 
 fn judge(a_j: &RunOut, b: Result<RunOut, PanicInfo>, perturb: bool) -> PairOutcome {
@@ -584,6 +689,28 @@ fn build_pool() -> Pool {
 }
 
 fn gen_set(rng: &mut Rng, pool: &Pool) -> FileSet {
+    let mut s = gen_set_clean(rng, pool);
+    // one set in six is made hostile: a needed file is missing, or a file exists twice under two names
+    if rng.chance(1, 6) && s.files.len() >= 2 {
+        if rng.bool() && s.files.len() >= 3 {
+            let k = rng.usize(s.files.len());
+            s.files.remove(k);
+            s.features.push("hostile_missing_file");
+            s.origin = format!("{}+missing", s.origin);
+        } else if s.files.len() <= 4 {
+            let k = rng.usize(s.files.len());
+            let mut d = s.files[k].clone();
+            d.name = d.name.replace(".veryl", "_dup.veryl");
+            let at = rng.usize(s.files.len() + 1);
+            s.files.insert(at, d);
+            s.features.push("hostile_duplicate_file");
+            s.origin = format!("{}+duplicate", s.origin);
+        }
+    }
+    s
+}
+
+fn gen_set_clean(rng: &mut Rng, pool: &Pool) -> FileSet {
     match rng.below(10) {
         // generated project
         0..=3 => {
@@ -722,8 +849,13 @@ struct CaseOut {
     not_cacheable: u64,
     restores_compared: u64,
     restores_compared_i_ne_j: u64,
+    multi_compared: u64,
+    multi_files_restored: u64,
+    /// (signature, what, order, cap_order, restored)
+    bad_multi: Vec<(String, String, Vec<usize>, Vec<usize>, Vec<usize>)>,
     restore_err: BTreeMap<String, u64>,
     baseline_panics: u64,
+    baseline_panic_notes: Vec<String>,
     kinds: BTreeSet<String>,
     f_symbols: u64,
     dumps_compared: u64,
@@ -735,7 +867,7 @@ struct CaseOut {
     sample: Option<Json>,
 }
 
-fn run_case(set: &FileSet, rng: &mut Rng, full: bool, perturb: bool) -> CaseOut {
+fn run_case(set: &FileSet, rng: &mut Rng, full: bool, perturb: bool, stale_fragment: bool) -> CaseOut {
     let files = &set.files;
     let n = files.len();
     let mut out = CaseOut { origin: set.origin.clone(), features: set.features.clone(), n_files: n, ..Default::default() };
@@ -778,9 +910,15 @@ fn run_case(set: &FileSet, rng: &mut Rng, full: bool, perturb: bool) -> CaseOut 
                     }
                     a.insert(p, o);
                 }
-                Err(_) => {
+                Err(pi) => {
                     // the analyzer itself panics on this input/order: C11's business
                     out.baseline_panics += 1;
+                    out.baseline_panic_notes.push(format!(
+                        "analyzer panics without any restore at {}: {} (files in order: {:?})",
+                        pi.location,
+                        trunc(&pi.message, 160),
+                        order_with(files, f, p).iter().map(|x| x.name.clone()).collect::<Vec<_>>()
+                    ));
                     abort = true;
                     break;
                 }
@@ -789,8 +927,20 @@ fn run_case(set: &FileSet, rng: &mut Rng, full: bool, perturb: bool) -> CaseOut 
         if abort {
             continue;
         }
+        // sensitivity switch: the fragment comes from a slightly different text of F (as if restore
+        // reproduced a slightly different state): ` logic` -> ` bit  ` at its first occurrence
+        let stale: Option<Vec<u8>> = if stale_fragment && files[f].text.contains(" logic") {
+            let mut fs2 = files.to_vec();
+            fs2[f].text = fs2[f].text.replacen(" logic", " bit  ", 1);
+            run_fresh(order_with(&fs2, f, 0), 0, FMode::Parse, false).ok().and_then(|o| o.capture).and_then(|c| c.ok())
+        } else {
+            None
+        };
         for &(i, j) in &pairs {
-            let Some(Ok(bytes)) = a[&i].capture.clone() else { continue };
+            let Some(Ok(mut bytes)) = a[&i].capture.clone() else { continue };
+            if let Some(s) = &stale {
+                bytes = s.clone();
+            }
             out.b_runs += 1;
             let b = run_fresh(order_with(files, f, j), j, FMode::Restore(Arc::new(bytes)), full);
             match judge(&a[&j], b, perturb) {
@@ -825,6 +975,34 @@ fn run_case(set: &FileSet, rng: &mut Rng, full: bool, perturb: bool) -> CaseOut 
             }
         }
     }
+    // several files restored in one build (what a warm CLI build does), fragments from a cold build
+    // with another file order
+    for _ in 0..2 {
+        let mut order: Vec<usize> = (0..n).collect();
+        rng.shuffle(&mut order);
+        let mut cap_order = order.clone();
+        rng.shuffle(&mut cap_order);
+        let size = if rng.chance(1, 3) { n } else { (2 + rng.usize(n - 1)).min(n) };
+        let mut idx: Vec<usize> = (0..n).collect();
+        rng.shuffle(&mut idx);
+        let restored: BTreeSet<usize> = idx[..size].iter().copied().collect();
+        match check_multi(files, &order, &cap_order, &restored, full, perturb) {
+            (PairOutcome::Equal, k) => {
+                out.multi_compared += 1;
+                out.multi_files_restored += k as u64;
+            }
+            (PairOutcome::Diffs(d), k) => {
+                out.multi_compared += 1;
+                out.multi_files_restored += k as u64;
+                for x in d {
+                    out.bad_multi.push((x.signature, x.what, order.clone(), cap_order.clone(), restored.iter().copied().collect()));
+                }
+            }
+            (PairOutcome::RestoreErr(e), _) => *out.restore_err.entry(norm_reason(&e)).or_default() += 1,
+            (PairOutcome::BaselinePanic(_), _) => out.baseline_panics += 1,
+            _ => {}
+        }
+    }
     out
 }
 
@@ -844,11 +1022,25 @@ pub fn main(args: Args) {
 
     let full = args.get("full") != Some("0");
     let perturb = args.get("sensitivity") == Some("perturb-dump");
+    let stale_fragment = args.get("sensitivity") == Some("stale-fragment");
 
     if let Some(rp) = &args.replay {
         let v: Json = serde_json::from_str(&std::fs::read_to_string(rp).expect("replay file")).unwrap();
         let c = &v["case"];
         let files = files_from_json(&c["files"]);
+        if c.get("multi").is_some() {
+            let list = |k: &str| -> Vec<usize> { c["multi"][k].as_array().unwrap().iter().map(|x| x.as_u64().unwrap() as usize).collect() };
+            run.eval();
+            match check_multi(&files, &list("order"), &list("cap_order"), &list("restored").into_iter().collect(), full, perturb).0 {
+                PairOutcome::Diffs(d) => {
+                    for x in d {
+                        run.violation(&x.signature, &x.what, c.clone());
+                    }
+                }
+                other => println!("replay outcome: {other:?}"),
+            }
+            run.finish(&[]);
+        }
         let (f, i, j) = (c["f"].as_u64().unwrap() as usize, c["i"].as_u64().unwrap() as usize, c["j"].as_u64().unwrap() as usize);
         run.eval();
         match check_pair(&files, f, i, j, full, perturb) {
@@ -876,7 +1068,7 @@ pub fn main(args: Args) {
         move |i| {
             let mut rng = Rng::for_case(seed, "C06", i);
             let set = gen_set(&mut rng, &pool2);
-            let o = run_case(&set, &mut rng, full, perturb);
+            let o = run_case(&set, &mut rng, full, perturb, stale_fragment);
             (set, o)
         },
         move |case, r| {
@@ -921,6 +1113,9 @@ pub fn main(args: Args) {
             run2.count("restored_symbols", o.f_symbols as i64);
             run2.count("fragment_bytes", o.fragment_bytes as i64);
             run2.count("baseline_panics_not_judged", o.baseline_panics as i64);
+            for x in &o.baseline_panic_notes {
+                run2.note(format!("case {case} ({}): {x}", o.origin));
+            }
             for k in &o.kinds {
                 run2.seen("symbol_kinds_restored", k);
             }
@@ -933,10 +1128,58 @@ pub fn main(args: Args) {
             {
                 run2.sample(s);
             }
+            run2.count("multi_restores_compared", o.multi_compared as i64);
+            run2.count("multi_restores_files_restored", o.multi_files_restored as i64);
             let mut seen = BTreeSet::new();
+            let single_sigs: BTreeSet<String> = o.bad.iter().map(|x| x.0.clone()).collect();
+            for (sig, what, order, cap_order, restored) in &o.bad_multi {
+                run2.count("differences_observed", 1);
+                // the same difference with a single restored file is reported (minimised) below
+                if single_sigs.contains(sig) || !seen.insert(sig.clone()) {
+                    continue;
+                }
+                if !REPORTED.lock().unwrap().insert(sig.clone()) {
+                    continue;
+                }
+                // prefer a single-file reproduction (then minimised) over the multi-file one
+                let n = set.files.len();
+                let mut single = None;
+                'search: for &f in restored {
+                    for i in 0..n {
+                        for j in 0..n {
+                            if let PairOutcome::Diffs(d) = check_pair(&set.files, f, i, j, full, false)
+                                && d.iter().any(|x| &x.signature == sig)
+                            {
+                                single = Some((f, i, j));
+                                break 'search;
+                            }
+                        }
+                    }
+                }
+                if let Some((f, i, j)) = single {
+                    let mut budget = min_budget;
+                    let (mf, mfi, mi, mj) = minimise(&set.files, f, i, j, sig, full, &mut budget);
+                    let what2 = match check_pair(&mf, mfi, mi, mj, full, false) {
+                        PairOutcome::Diffs(d) => d.iter().find(|x| &x.signature == sig).map(|x| x.what.clone()).unwrap_or(what.clone()),
+                        _ => what.clone(),
+                    };
+                    run2.violation(
+                        sig,
+                        &format!("{what2} [F = {} captured at position {mi}, restored at position {mj} of {} files; origin {}; first seen with several files restored together]", mf[mfi].name, mf.len(), o.origin),
+                        json!({"files": files_json(&mf), "f": mfi, "i": mi, "j": mj, "origin": o.origin,
+                               "original": {"files": files_json(&set.files), "multi": {"order": order, "cap_order": cap_order, "restored": restored}}, "case_index": case}),
+                    );
+                    continue;
+                }
+                run2.violation(
+                    sig,
+                    &format!("{what} [files {:?} restored together in order {order:?} from fragments captured in order {cap_order:?}; origin {}]", restored, o.origin),
+                    json!({"files": files_json(&set.files), "multi": {"order": order, "cap_order": cap_order, "restored": restored}, "origin": o.origin, "case_index": case}),
+                );
+            }
             for (sig, what, f, i, j) in &o.bad {
                 run2.count("differences_observed", 1);
-                if !seen.insert(sig.clone()) {
+                if !seen.insert(sig.clone()) || !REPORTED.lock().unwrap().insert(sig.clone()) {
                     continue;
                 }
                 let mut budget = min_budget;
@@ -959,12 +1202,13 @@ pub fn main(args: Args) {
         ("file_sets", (n as i64 * 8) / 10),
         ("captures_ok", q(100)),
         ("restores_compared", q(300)),
-        ("restores_compared_other_position", q(150)),
-        ("dumps_compared", q(2_000)),
-        ("sv_files_compared", q(300)),
-        ("restored_symbols", q(2_000)),
-        ("symbol_kinds_restored", q(12)),
-        ("generator_features", q(12)),
-        ("distinct_nontrivial", q(20)),
+        ("restores_compared_other_position", q(200)),
+        ("multi_restores_compared", q(20)),
+        ("dumps_compared", q(5_000)),
+        ("sv_files_compared", q(800)),
+        ("restored_symbols", q(5_000)),
+        ("symbol_kinds_restored", q(9)),
+        ("generator_features", q(11)),
+        ("distinct_nontrivial", q(13)),
     ]);
 }
